@@ -177,6 +177,10 @@ func (rr *SIG) Verify(k *KEY, buf []byte) error {
 		r := new(big.Int).SetBytes(sig[:len(sig)/2])
 		s := new(big.Int).SetBytes(sig[len(sig)/2:])
 		if pk != nil {
+			// r and s are each as wide as the curve (RFC 6605, section 4)
+			if len(sig) != 2*((pk.Curve.Params().BitSize+7)/8) {
+				return ErrSig
+			}
 			if ecdsa.Verify(pk, hashed, r, s) {
 				return nil
 			}
